@@ -416,8 +416,9 @@ Definition run_tag (l : list tok) : list tok :=
   match parse_case l with
   | Some (cf, n, ops) =>
       let fs := features cf (world0 n) ops in
-      [tag ((if cf_enabled cf then "" else "disabled_") +++ cs_tag (case_sampler l) +++ "_" +++
-            (if existsb (fun o => match snd o with SStart _ _ _ _ => true | _ => false end) ops then "" else "nostart") +++
-            fold_right (fun f acc => if existsb (String.eqb f) fs then f +++ acc else acc) "" all_features)]
+      if existsb (fun o => match snd o with SStart _ _ _ _ => true | _ => false end) ops then
+        [tag ((if cf_enabled cf then "" else "disabled_") +++ cs_tag (case_sampler l) +++ "_" +++
+              fold_right (fun f acc => if existsb (String.eqb f) fs then f +++ acc else acc) "" all_features)]
+      else [tag "nostart"]
   | None => bad_case
   end.
